@@ -24,6 +24,11 @@ PENDING_KNOWN = [
              "(p_message_item_unsupported uses p[0]), not with ImportInMessageUnsupported citing file and line",
      "class": {"site": "parser.p_message_item_unsupported", "cond": "import item in message scope"},
      "witness": "corpus/C08/import_in_message.json"},
+    {"status": "known", "property": "C08", "key": "import-in-enum-location",
+     "what": "an import statement inside an enum is rejected with ImportInEnumUnsupported citing the IMPORTED file, "
+             "line 0, instead of the importing file and the line of the import statement",
+     "class": {"site": "parser.p_enum_item_unsupported", "cond": "import item in enum scope (from_token of a Proto)"},
+     "witness": "corpus/C08/import_in_enum.json"},
 ]
 
 
@@ -122,6 +127,11 @@ def in_known_class_cases():
     f = P(M("Mm", fld(S(["bool"])), ["import", None, None, "zlib.bitproto"]))
     f.update(lib)
     out.append(dict(files=f, key="import-in-message", rule="import inside a message"))
+    imp = ["import", None, None, "zlib.bitproto"]
+    f = P(["enum", None, "Ee", ["uint", 3], [["efield", None, "ZA", 0], imp]])
+    f.update(lib)
+    out.append(dict(files=f, key="import-in-enum-location", rule="import inside an enum", code=26,
+                    file="rootp.bitproto", node=imp))
     return out
 
 
@@ -186,7 +196,10 @@ def run(ck):
         specs.append(b)
     n_boundary = len(specs) - n_corpus
     for k in in_known_class_cases():
-        k.update(code=None, node=None, file=None, trad=False, origin="inside-known-class:" + k["rule"])
+        k.setdefault("code", None)
+        k.setdefault("node", None)
+        k.setdefault("file", None)
+        k.update(trad=False, origin="inside-known-class:" + k["rule"])
         specs.append(k)
     specs.extend(gen_stream(ck, ck.n(45, 700), ck.n(7, 8), ck.n(1, 2)))
 
@@ -246,7 +259,7 @@ def run(ck):
                 replay["expected"] = {"code": s["code"], "file": exp_file, "line": exp_line}
                 ck.violation(f"{s.get('rule')}: expected kind {s['code']} at {exp_file}:{exp_line}, the compiler "
                              f"reported {o['cls'] or 'acceptance'} at {o['file']}:{o['line']}", replay,
-                             found_input=True)
+                             found_input=True, key=s.get("key"))
         # --- CLI: exit status, stderr, no output file on rejection
         if "cli" in r:
             cli = r["cli"]
